@@ -69,11 +69,28 @@ type Ctx struct {
 	Out      *Output
 	Race     bool
 	maxViol  int
+	nviol    int
+	scenEnd  time.Time
 }
 
 func (c *Ctx) Thorough() bool { return c.Tier == "thorough" }
 
-func (c *Ctx) TimeUp() bool { return !c.Deadline.IsZero() && time.Now().After(c.Deadline) }
+func (c *Ctx) TimeUp() bool {
+	if !c.scenEnd.IsZero() && time.Now().After(c.scenEnd) {
+		return true
+	}
+	return !c.Deadline.IsZero() && time.Now().After(c.Deadline)
+}
+
+// BeginScenario gives the scenario that starts now its own time slice (so that one
+// large scenario cannot starve the following ones of the worker's deadline).
+func (c *Ctx) BeginScenario() {
+	d := 90 * time.Second
+	if c.Thorough() {
+		d = 7 * time.Minute
+	}
+	c.scenEnd = time.Now().Add(d)
+}
 
 // Mine reports whether enumeration index i belongs to this shard.
 func (c *Ctx) Mine(i int64) bool { return c.NShards <= 1 || int(i%int64(c.NShards)) == c.Shard }
@@ -141,6 +158,16 @@ func (c *Ctx) Violation(scenario, sig, msg string, choices []int, kase interface
 		r.Case = b
 	}
 	c.Out.Violations = append(c.Out.Violations, r)
+	c.nviol++
+	if c.nviol >= 12 && c.Replay == nil {
+		// enough evidence: stop this worker instead of grinding through a broken tree
+		for _, s := range c.Out.Scenarios {
+			s.Exhaustive = false
+			s.CapNote = "stopped after 12 distinct violations"
+		}
+		c.Emit()
+		os.Exit(0)
+	}
 }
 
 func (c *Ctx) HasViolation() bool { return len(c.Out.Violations) > 0 }
@@ -162,6 +189,7 @@ func (c *Ctx) RunSched(sc Sched) {
 	if !c.Want(sc.Name) {
 		return
 	}
+	c.BeginScenario()
 	st := c.Stat(sc.Name, "schedules")
 	st.Bounds = fmt.Sprintf("preemptions<=%d ticks<=%d(deltas %v) data<=%d total<=%d", sc.Bounds.Preempt, sc.Bounds.Tick, sc.Opt.Ticks, sc.Bounds.Data, sc.Bounds.Total)
 	if c.Replay != nil {
